@@ -81,6 +81,7 @@ var (
 	fReqLost     = simrt.RegisterCounter("fault_request_lost")
 	fTruncResp   = simrt.RegisterCounter("fault_response_truncated")
 	cBusy        = simrt.RegisterCounter("op_busy_server_many_connections_and_devices")
+	fClientGone  = simrt.RegisterCounter("fault_client_disconnected_while_storage_works")
 	fProvision   = simrt.RegisterCounter("fault_device_provisioned_after_first_requests")
 	fKEKRotate   = simrt.RegisterCounter("fault_kek_replaced_in_store")
 	fKEKInPlace  = simrt.RegisterCounter("fault_kek_rewritten_in_place")
@@ -247,29 +248,36 @@ type reqCtx struct {
 	failKEK   int // 0 none, 1 error on NS kek, 2 error on AS kek
 	failLabel bool
 	failNet   bool
+	failOnce  bool // the injected storage failure happens once per callback kind, the next call of that kind succeeds (a flaky back-end)
+	failedK   [4]bool
 	overflow  bool
 	slow      int64 // virtual ns every storage callback of this request takes
 	bodyShort bool
 	bodyErrAt int // -1 none
 	writeErr  bool
 	// record
-	firedKeys  bool // the injected storage faults that actually fired for this delivery
-	firedKEK   bool
-	firedLabel bool
-	firedNet   bool
-	gen        int // key generation storage served to this request
-	gotKeys    bool
-	notFound   bool // storage answered ErrDevEUINotFound to this delivery
-	nonce      int
-	nsKEK      []byte // copies of what storage served to this delivery
-	nsServed   bool
-	asLabel    string
-	asKEK      []byte
-	asServed   bool
-	slept      int64
-	kekCalls   int
-	nsLabel    string // the SenderID of the request this delivery belongs to
-	deliveries int
+	firedKeys   bool // the injected storage faults that actually fired for this delivery
+	firedKEK    bool
+	firedLabel  bool
+	firedNet    bool
+	gen         int // key generation storage served to this request
+	gotKeys     bool
+	notFound    bool // storage answered ErrDevEUINotFound to this delivery
+	nonce       int
+	nsKEK       []byte // copies of what storage served to this delivery
+	nsServed    bool
+	asLabel     string
+	asKEK       []byte
+	asServed    bool
+	labelServed bool
+	slept       int64
+	cancelAt    int // cancel the request's context inside this storage callback (1-based count; 0 = never)
+	stoCalls    int
+	cancelled   bool // the client went away while the request was being handled
+	cancel      func()
+	kekCalls    int
+	nsLabel     string // the SenderID of the request this delivery belongs to
+	deliveries  int
 }
 
 type world struct {
@@ -307,6 +315,14 @@ func (w *world) ctx() *reqCtx {
 //
 //go:norace
 func (w *world) slowDown(c *reqCtx) {
+	c.stoCalls++
+	if c.cancelAt > 0 && c.stoCalls == c.cancelAt && c.cancel != nil {
+		// the network server closed the connection (its own time-out, a
+		// restart): the request's context is cancelled while storage works
+		c.cancelled = true
+		simrt.Count(fClientGone)
+		c.cancel()
+	}
 	if c.slow > 0 {
 		c.slept += c.slow
 		simrt.Sleep(c.slow)
@@ -321,8 +337,11 @@ func (w *world) getDeviceKeys(devEUI lorawan.EUI64) (joinserver.DeviceKeys, erro
 	w.slowDown(c)
 	switch c.failKeys {
 	case 1:
-		c.firedKeys = true
-		return joinserver.DeviceKeys{}, errInjected
+		if !(c.failOnce && c.failedK[0]) {
+			c.failedK[0] = true
+			c.firedKeys = true
+			return joinserver.DeviceKeys{}, errInjected
+		}
 	case 2:
 		c.notFound = true
 		return joinserver.DeviceKeys{}, joinserver.ErrDevEUINotFound
@@ -361,7 +380,8 @@ func (w *world) getKEK(label string) ([]byte, error) {
 	}
 	simrt.Trace(evSto, 2, uint64(which))
 	w.slowDown(c)
-	if c.failKEK == which {
+	if c.failKEK == which && !(c.failOnce && c.failedK[which]) {
+		c.failedK[which] = true
 		c.firedKEK = true
 		return nil, errInjected
 	}
@@ -385,7 +405,8 @@ func (w *world) getASLabel(devEUI lorawan.EUI64) (string, error) {
 	c := w.ctx()
 	simrt.Trace(evSto, 3, 0)
 	w.slowDown(c)
-	if c.failLabel {
+	if c.failLabel && !(c.failOnce && c.failedK[3]) {
+		c.failedK[3] = true
 		c.firedLabel = true
 		return "", errInjected
 	}
@@ -394,6 +415,7 @@ func (w *world) getASLabel(devEUI lorawan.EUI64) (string, error) {
 		return "", nil
 	}
 	c.asLabel = rec.asLabel
+	c.labelServed = true
 	return rec.asLabel, nil
 }
 
@@ -506,6 +528,13 @@ func (w *world) serve(body []byte, c *reqCtx) (int, []byte) {
 	c.kekCalls = 0
 	fb := &faultyBody{b: body, short: c.bodyShort, errAt: c.bodyErrAt}
 	req, _ := http.NewRequest(http.MethodPost, "http://js.sim/", fb)
+	c.stoCalls = 0
+	if c.cancelAt > 0 {
+		ctx, cancel := context.WithCancel(context.Background())
+		c.cancel = cancel
+		defer cancel()
+		req = req.WithContext(ctx)
+	}
 	// a server sees the declared length of an identity-encoded body, and -1
 	// for a chunked one (the body reader delivers what it delivers either way)
 	if (len(body)+c.deliveries)%3 != 0 {
@@ -589,7 +618,7 @@ func build(sw *sim.World) {
 	busy := simrt.Choose(30) == 1
 	if busy {
 		nDev = 12 + simrt.Choose(36)
-		nNS = 6 + simrt.Choose(10)
+		nNS = 6 + simrt.Choose(24)
 		simrt.Count(cBusy)
 	}
 	w.faults = simrt.Choose(3) != 0
@@ -853,6 +882,10 @@ func nsTask(w *world, id int, netID lorawan.NetID, senderID string, n int, sub u
 			if r.Intn(4) == 0 {
 				c.bodyShort = true
 			}
+			if r.Intn(16) == 0 {
+				c.cancelAt = 1 + r.Intn(4)
+			}
+			c.failOnce = r.Intn(3) == 0
 		}
 		// the operator provisions a device that was unknown so far (requests for
 		// it were answered UnknownDevEUI until now and must succeed from now on)
@@ -1011,7 +1044,7 @@ func doRequest(w *world, r *sim.Rand, rq *request, c *reqCtx, faults, live bool)
 			if a > 0 {
 				simrt.Count(fRetryDup)
 				// the retry is a fresh delivery: new record, same plan
-				*c = reqCtx{bodyErrAt: -1, nsLabel: c.nsLabel, failKeys: c.failKeys, failKEK: c.failKEK, failLabel: c.failLabel, failNet: c.failNet, overflow: c.overflow, bodyShort: c.bodyShort, slow: c.slow}
+				*c = reqCtx{bodyErrAt: -1, nsLabel: c.nsLabel, failKeys: c.failKeys, failKEK: c.failKEK, failLabel: c.failLabel, failNet: c.failNet, overflow: c.overflow, bodyShort: c.bodyShort, slow: c.slow, cancelAt: c.cancelAt, failOnce: c.failOnce}
 			}
 			var base backend.BasePayloadResult
 			var got interface{}
@@ -1088,7 +1121,7 @@ func doRequest(w *world, r *sim.Rand, rq *request, c *reqCtx, faults, live bool)
 	if c.writeErr {
 		// the response was cut by the writer: nothing to judge but that the
 		// handler survived; retry without the fault
-		*c = reqCtx{bodyErrAt: -1, nsLabel: c.nsLabel, failKeys: c.failKeys, failKEK: c.failKEK, failLabel: c.failLabel, failNet: c.failNet, overflow: c.overflow, slow: c.slow}
+		*c = reqCtx{bodyErrAt: -1, nsLabel: c.nsLabel, failKeys: c.failKeys, failKEK: c.failKEK, failLabel: c.failLabel, failNet: c.failNet, overflow: c.overflow, slow: c.slow, failOnce: c.failOnce}
 		simrt.Count(fRetryDup)
 		code, out = w.serve(body, c)
 	}
